@@ -1475,6 +1475,27 @@ def _compile(filename, tree, freevars, classname=None, flags=0):
             kwargs = {"posonlyargs": []}
         else:  # pragma: no cover
             kwargs = {}
+        # The new code must have the same closure variables as the original,
+        # even those that the transformed body does not use anymore (e.g. one
+        # that was only used in the annotation of a variable): a statement
+        # that is never executed refers to all of them.
+        tree.body.append(
+            ast.If(
+                test=ast.Constant(value=False),
+                body=[
+                    ast.Expr(
+                        ast.Tuple(
+                            elts=[
+                                ast.Name(id=name, ctx=ast.Load())
+                                for name in freevars
+                            ],
+                            ctx=ast.Load(),
+                        )
+                    )
+                ],
+                orelse=[],
+            )
+        )
         tree = ast.copy_location(
             ast.FunctionDef(
                 name="#WRAP",
